@@ -79,6 +79,14 @@ def run(ctx):
            why=f"units {sorted(returned - handled)} parse but cannot be converted", key='parsed unit not convertible',
            nontrivial=False)
 
+    # ---- R4 (read back): get_concentration interprets its unit argument through the same parser and by definition
+    from . import c10
+    before = len(ctx.obs)
+    c10.observers(ctx)
+    kept = [o for o in ctx.obs[before:] if o.func == 'Container.get_concentration']
+    for o in kept:
+        o.rule = 'C14.R4'
+    ctx.obs[before:] = kept
     # ---- R6 a parsed quantity whose unit is discarded must not be relabelled
     for q in ('Container.__init__', 'Plate.__init__'):
         sc = scan_ctor(ctx, q)
